@@ -11,6 +11,7 @@ use ark_poly::Polynomial;
 pub fn run(ctx: &mut Ctx) {
     kzg10(ctx);
     generic::c07_all(ctx);
+    bounded_parts_independent(ctx);
     ctx.flush_model("C07");
 }
 
@@ -111,4 +112,80 @@ fn kzg10(ctx: &mut Ctx) {
         ctx.rep.case(&format!("kzg10 hiding s={} h={} poly={} rng-bytes={}", supported, h, kind, crng.bytes),
             Some(format!("kzg10/{}/{}", supported, h)));
     }
+}
+
+/// A hiding commitment WITH a degree bound consists of two blinded commitments (plain and shifted).  Each must
+/// carry its own fresh blinding: the two blinding values of the state differ, the difference `comm − shifted`
+/// changes with the RNG stream (if both parts shared their blinding it would be a deterministic function of the
+/// polynomial), and the committer draws more from the RNG than for the same polynomial without bound.
+/// MarlinKZG10 and the inner-product argument (the schemes with shifted commitments).
+fn bounded_parts_independent(ctx: &mut Ctx) {
+    use ark_ec::{AffineRepr, CurveGroup};
+    use ark_poly_commit::{LabeledPolynomial, PolynomialCommitment};
+    type G1 = ark_bls12_381::G1Projective;
+    fn go<PC, FD, FS>(ctx: &mut Ctx, name: &str, diff: FD, same_blinding: FS)
+    where
+        PC: PolynomialCommitment<Fr, generic::UniPoly>,
+        FD: Fn(&PC::Commitment) -> Option<G1>,
+        FS: Fn(&PC::CommitmentState) -> Option<bool>,
+    {
+        for i in 0..ctx.n(6, 40) {
+            let id = format!("C07/bounded-parts/{}/{}", name, i);
+            if !ctx.selected(&id) {
+                continue;
+            }
+            let mut rng = rng_for(ctx.seed, "C07/bounded-parts", i as u64);
+            let supported = range(&mut rng, 4, 16);
+            let bound = range(&mut rng, 2, supported);
+            let deg = range(&mut rng, 1, bound);
+            let h = range(&mut rng, 1, 2.min(bound));
+            let r = guarded(|| -> Result<(), String> {
+                let pp = PC::setup(supported, None, &mut rng).map_err(|e| format!("setup {:?}", e))?;
+                let (ck, _vk) = PC::trim(&pp, supported, h, Some(&[bound])).map_err(|e| format!("trim {:?}", e))?;
+                let poly = <generic::UniPoly as ark_poly::DenseUVPolynomial<Fr>>::rand(deg, &mut rng);
+                let lb = LabeledPolynomial::new("p".to_string(), poly.clone(), Some(bound), Some(h));
+                let lu = LabeledPolynomial::new("p".to_string(), poly.clone(), None, Some(h));
+                let mut ra = CountRng::new(rng_for(ctx.seed ^ 0xa, &id, 0));
+                let mut rb = CountRng::new(rng_for(ctx.seed ^ 0xb, &id, 1));
+                let mut ru = CountRng::new(rng_for(ctx.seed ^ 0xa, &id, 0));
+                let (ca, sa) = PC::commit(&ck, [&lb], Some(&mut ra)).map_err(|e| format!("commit {:?}", e))?;
+                let (cb, _sb) = PC::commit(&ck, [&lb], Some(&mut rb)).map_err(|e| format!("commit {:?}", e))?;
+                let (_cu, _su) = PC::commit(&ck, [&lu], Some(&mut ru)).map_err(|e| format!("commit {:?}", e))?;
+                let txt = format!("# scheme: {}\n# case: {}\n# seed: {}\n# supported={} bound={} degree={} hiding={}\n# rerun: .build/cargo/debug/pcv-harness C07 --seed {} --only {}\n",
+                    name, id, ctx.seed, supported, bound, deg, h, ctx.seed, id);
+                match (diff(ca[0].commitment()), diff(cb[0].commitment())) {
+                    (Some(da), Some(db)) => {
+                        if da == db {
+                            ctx.rep.expect_fail(&id, &format!("{}/bounded-parts-share-blinding/difference-seed-independent", name),
+                                "comm - shifted_comm of a hiding bounded commitment is the same under independent RNG streams: the two parts carry the same blinding", txt.clone());
+                        }
+                    }
+                    _ => ctx.rep.expect_fail(&id, &format!("{}/bounded-commitment-without-shifted-part", name),
+                        "a commitment made under a degree bound has no shifted part", txt.clone()),
+                }
+                if same_blinding(&sa[0]) != Some(false) {
+                    ctx.rep.expect_fail(&id, &format!("{}/bounded-parts-share-blinding/state", name),
+                        "the commitment state of a hiding bounded commitment has equal (or no) blinding for its two parts", txt.clone());
+                }
+                if ra.bytes < ru.bytes + 31 {
+                    ctx.rep.expect_fail(&id, &format!("{}/bounded-parts-share-blinding/rng-draws", name),
+                        &format!("the bounded hiding commit drew {} bytes from the RNG, the unbounded one {}: no fresh randomness for the shifted part", ra.bytes, ru.bytes), txt.clone());
+                }
+                ctx.rep.case(&format!("{} bounded parts supported={} bound={} deg={} h={} bytes {}/{}", name, supported, bound, deg, h, ra.bytes, ru.bytes),
+                    Some(format!("bounded-parts/{}/{}/{}", name, bound, h)));
+                Ok(())
+            });
+            if let Ok(Err(e)) | Err(e) = r {
+                ctx.rep.expect_fail(&id, &format!("{}/hiding-commit-refused", name), &format!("in-domain bounded hiding commit refused: {}", e),
+                    format!("# scheme: {}\n# case: {}\n# seed: {}\n", name, id, ctx.seed));
+            }
+        }
+    }
+    go::<generic::MarlinPC, _, _>(ctx, "marlin",
+        |c| c.shifted_comm.as_ref().map(|s| c.comm.0.into_group() - s.0.into_group()),
+        |st| st.shifted_rand.as_ref().map(|s| s.blinding_polynomial == st.rand.blinding_polynomial));
+    go::<generic::IpaPC, _, _>(ctx, "ipa",
+        |c| c.shifted_comm.as_ref().map(|s| c.comm.into_group() - s.into_group()),
+        |st| st.shifted_rand.as_ref().map(|s| *s == st.rand));
+    let _ = G1::default().into_affine();
 }
